@@ -83,12 +83,7 @@ Proof.
 Qed.
 
 Lemma last_app1 : forall (l : list N) a d, last (l ++ [a]) d = a.
-Proof.
-  induction l as [|b l IH]; intros a d; [reflexivity|].
-  cbn [app]. destruct (l ++ [a]) eqn:E.
-  - destruct l; discriminate.
-  - rewrite <- E. apply IH.
-Qed.
+Proof. intros. apply last_last. Qed.
 
 Lemma prev_ts_snoc : forall pre e, prev_ts (pre ++ [e]) = snd e.
 Proof. intros. unfold prev_ts. rewrite map_app. cbn. apply last_app1. Qed.
